@@ -1,4 +1,5 @@
 (* C03 - grouping is purely structural and yields a well-formed token tree. *)
+From SqlModel.Gen Require LexPins.   (* the scan loop, is_keyword, consume and the class-level state of sqlparse/lexer.py have the pinned shape *)
 From SqlModel.Inst Require PassTabRun.   (* the grouping tables of Group/Passes.v equal the ones regenerated from the source *)
 From SqlModel.Props Require C03h.   (* object-heap half: parent pointers, identities, navigation helpers *)
 From SqlModel Require Import Base PyStr Lexer SplitDefs Splitter SplitFacts Node Inv Passes GroupFacts.
